@@ -145,11 +145,19 @@ pub fn run_seed(base_seed: u64, run: u64) -> u64 {
 }
 
 /// Shrink `tape` while the same oracle keeps firing. Bounded by `budget`.
-pub fn shrink(sc: &dyn Scenario, seed: u64, tape: Vec<u32>, oracle: &str, budget: Duration) -> Vec<u32> {
+pub fn shrink(
+    sc: &dyn Scenario,
+    seed: u64,
+    tape: Vec<u32>,
+    oracle: &str,
+    budget: Duration,
+    is_known: &dyn Fn(&Violation) -> bool,
+) -> Vec<u32> {
     let start = Instant::now();
+    // Same violation class: same oracle, and not one of the listed known findings
     let fails = |t: &Vec<u32>| -> bool {
         let r = execute(sc, seed, Tape::replay(t.clone()), false);
-        r.outcome.violations.iter().any(|v| v.oracle == oracle)
+        r.outcome.violations.iter().any(|v| v.oracle == oracle && !is_known(v))
     };
     let mut cur = tape;
     // Trim trailing zeros (reading past the end yields 0 anyway)
@@ -250,7 +258,7 @@ pub fn batch(
     base_seed: u64,
     budget: &Budget,
     threads: usize,
-    is_known: &(dyn Fn(&Violation) -> bool + Sync),
+    is_known: &(dyn Fn(&Violation) -> Option<String> + Sync),
 ) -> BatchReport {
     let next = AtomicU64::new(0);
     let stop = AtomicBool::new(false);
@@ -324,8 +332,8 @@ pub fn batch(
                             }
                         }
                         for v in r.outcome.violations {
-                            if is_known(&v) {
-                                *local.known.entry(v.oracle.clone()).or_default() += 1;
+                            if let Some(label) = is_known(&v) {
+                                *local.known.entry(label).or_default() += 1;
                             } else {
                                 local.violations.push((seed, run, v, r.tape.clone()));
                                 stop.store(true, Ordering::Relaxed);
